@@ -567,18 +567,20 @@ def _sim_case(task):
 
 def _na10860_case(task):
     aldyenv.setup()
-    d = os.path.join(task["dir"], "na10860")
+    d = os.path.join(task["dir"], "na10860" + task.get("profile", ""))
     os.makedirs(d, exist_ok=True)
     bam = os.path.join(aldyenv.ALDY_SRC, "aldy/tests/resources/NA10860.bam")
     out1 = os.path.join(d, "out.aldy")
     prefix = os.path.join(d, "dbg")
-    argv = ["genotype", bam, "-p", "illumina", "-g", "CYP2D6", "-o", out1, "--debug", prefix]
+    prof = task.get("profile", "illumina")   # "exome": a profile ALIAS that also switches copy-number calling off
+    extra = ["--param", "phase=false"] if task.get("fast") else []
+    argv = ["genotype", bam, "-p", prof, "-g", "CYP2D6", "-o", out1, "--debug", prefix] + extra
     obs, events, code = run_cli(argv)
     run1 = {"obs": obs, "events": events, "crash": f"exit {code}" if code not in (None, 0) else ""}
     out_text = open(out1).read() if os.path.exists(out1) else ""
     archive = prefix + ".tar.gz"
-    plan = {"params": {}}
-    r = _replay("CYP2D6", archive, "illumina", None, None, plan, None, "out.aldy", True)
+    plan = {"params": {"phase": "false"} if task.get("fast") else {}}
+    r = _replay("CYP2D6", archive, prof, None, None, plan, None, "out.aldy", True)
     genes = [("CYP2D6", {"cyp2d6"})]
     meta = {"kind": "na10860", "genome": "hg19", "plan": plan, "argv": argv, "idx": task["idx"], "seed": 0, "haps": ["NA10860"], "extra": {}}
     rows, info = _case_events(task["idx"], genes, run1, [("same", r, ["CYP2D6"], False)], out_text, archive, meta)
@@ -815,6 +817,9 @@ def tasks_for(ctx):
         tasks.append({"idx": i, "kind": kind, "seed": rng.randrange(1 << 30), "dir": d, "budget": 40 if quick else 900})
     if not quick:
         tasks.insert(0, {"idx": n, "kind": "na10860", "seed": 0, "dir": d})
+    # the repo's own sample under a profile ALIAS (exome = illumina + no copy-number calling), read phasing off (2 x 25 s):
+    # what the alias switches is not in the archive and has to be re-applied on replay
+    tasks.insert(0, {"idx": n + 1, "kind": "na10860", "seed": 0, "dir": d, "profile": "exome", "fast": True})
     return tasks
 
 
